@@ -3,6 +3,7 @@ use crate::core::Property;
 pub mod c04;
 pub mod c06;
 pub mod c07;
+pub mod c12;
 pub mod c14;
 pub mod c15_16;
 pub mod indic;
@@ -16,6 +17,7 @@ pub fn registry() -> Vec<Box<dyn Property>> {
         Box::new(indic::C09),
         Box::new(indic::C10),
         Box::new(indic::C11),
+        Box::new(c12::C12),
         Box::new(c14::C14),
         Box::new(c15_16::C15),
         Box::new(c15_16::C16),
